@@ -150,6 +150,25 @@ def handle (op : String) (args : List String) (impl : Impl) : Option Ans :=
       | _ => "FAIL:decode"
     pure { model := (match m with | some x => "ok " ++ showF x | none => "unmodelled"), spec := sp,
            branch := "accf:" ++ name ++ (if m.isSome then (if cross then ":softf64=hw" else ":softf64!=hw") else "") }
+  | "wrap_c", name :: _ | "wrap_a", name :: _ | "wrap_p", name :: _ => do
+    -- spec only: a thin public wrapper agrees with the generic call whose meaning the properties state
+    -- (epochs: same scale, same elapsed time to 1 ns; doubles: to 2 units in the last place; durations: identical)
+    let sp := match impl with
+      | .ok ["e", x, y] => (match parseEp? x, parseEp? y with
+          | some x, some y => verdict [("scale", x.ts == y.ts), ("canonical", scanon x.dur),
+                                        ("same_as_generic_call", decide ((sval x.dur - sval y.dur).natAbs ≤ 1))]
+          | _, _ => "FAIL:decode")
+      | .ok ["d", x, y] => (match parseDur? x, parseDur? y with
+          | some x, some y => verdict [("same_as_generic_call", sval x == sval y)]
+          | _, _ => "FAIL:decode")
+      | .ok ["f", x, y] => (match parseF? x, parseF? y with
+          | some x, some y =>
+            let bx := x.toBits.toNat; let by' := y.toBits.toNat
+            verdict [("same_as_generic_call", (bx == by') || (x == y) || (bx / 2 ^ 63 == by' / 2 ^ 63 && (if bx ≥ by' then bx - by' else by' - bx) ≤ 2))]
+          | _, _ => "FAIL:decode")
+      | .other w => "FAIL:" ++ w
+      | _ => "FAIL:decode"
+    pure { model := "-", spec := sp, branch := op ++ ":" ++ name }
   | "acc_via", [name, _e] => do
     -- metamorphic (spec only): a view of an epoch equals the same view of its re-expression in the view's scale;
     -- durations to 2 ns, doubles to 8 units in the last place (used with ET/TDB epochs)
